@@ -13,7 +13,8 @@
      FileData mutexes a section under [mu] takes (FileData.Name(), FileInfo.IsDir(), SetMode,
      ChangeFileName, parent.Lock() in (un)registerWithParent) appear as "touches"
      (acquire; release) BEFORE the section's body;
-   - the table follows /repo as of commit 4081b32 (RemoveAll, Chmod, Chtimes: one write-locked
+   - the table follows /repo as of commit 2d6ed35 (error paths of mem.File read the name through
+     fileData.Name(); parent mutex released by defer; RemoveAll, Chmod, Chtimes: one write-locked
      section with a deferred unlock; OpenFile with O_CREATE: openOrCreate; Mkdir: no setFileMode).
      RemoveAll as it was before commit ce143d9 is kept behind [cf_legacy] (the ARa sections): there
      Go's map iteration order is one legal order — the keys present when the loop starts, in
@@ -61,7 +62,7 @@ Inductive cc_aid :=
 | ARemoveAllT | ARemoveAll
 | ARaUnregT | ARaUnreg | ARaScan | ARaDelete | ARaNext   (* RemoveAll before commit ce143d9 (legacy) *)
 | AHPre (k : cc_hk) | AHBody (k : cc_hk)
-| AXList.                                   (* MemMapFs.List: annotations only, never compiled *)
+| AXList.                                   (* MemMapFs.List (under mu.RLock since 2d6ed35): annotations only, never compiled *)
 
 Inductive cc_instr :=
 | CcAcq (l : cc_lk) (r : nat)     (* r: the FileData whose mutex is taken (LkF only) *)
@@ -81,7 +82,7 @@ Definition cc_ctx (a : cc_aid) : cc_hmu * bool * list cc_lk :=
   | ARaDelete => (HW, false, [LkR])
   | AHPre _ => (HNone, false, [])
   | AHBody _ => (HNone, true, [])
-  | AXList => (HNone, false, [])
+  | AXList => (HR, false, [LkR])
   end.
 
 (* ------------------------------------------------------------------ frames, threads *)
@@ -163,6 +164,20 @@ Definition cc_early (o : op) (h : hnd) (nd : node) : bool :=
   | HReaddir _ _ | HReaddirnames _ _ => negb (ndir nd)
   | HClose _ | HStat _ | HName _ => false
   | _ => true
+  end.
+
+(* does the early return build its *os.PathError, i.e. call fileData.Name() (a transient lock of the
+   file mutex since commit cbef301)? *)
+Definition cc_early_name (o : op) (h : hnd) (nd : node) : bool :=
+  match o with
+  | HReadAt _ _ off => off <? 0
+  | HWrite _ _ | HWriteString _ _ => negb (hclosed h) && hro h
+  | HWriteAt _ _ off => (off <? 0) || (negb (hclosed h) && hro h)
+  | HTruncate _ _ => negb (hclosed h) && hro h
+  | HSeek _ off wh =>
+      negb (hclosed h) && negb (wh =? 2) && ((if wh =? 0 then off else if wh =? 1 then hat h + off else hat h) <? 0)
+  | HReaddir _ _ | HReaddirnames _ _ => negb (ndir nd)
+  | _ => false
   end.
 
 Definition cc_tick (s : mst) : mst := mkM (mdata s) (mheap s) (mhandles s) (mclock s + 1).
@@ -304,7 +319,8 @@ Definition cc_sem (a : cc_aid) (f : cc_frame) (s0 : mst) : cc_out :=
         | None => CcPanic s
         | Some nd =>
           if cc_early o hd nd
-          then let '(s1, r) := m_step_raw s (op_set_handle o (fr_h f)) in CcCont s1 (fr_set_res f r) []
+          then let '(s1, r) := m_step_raw s (op_set_handle o (fr_h f)) in
+               CcCont s1 (fr_set_res f r) (cc_touches (if cc_early_name o hd nd then [href hd] else []))
           else CcCont s (fr_set_ref f (href hd)) [CcAcq LkF (href hd); CcAct (AHBody k)]
         end
       end
@@ -313,6 +329,7 @@ Definition cc_sem (a : cc_aid) (f : cc_frame) (s0 : mst) : cc_out :=
       let kids := match k with
                   | HkReaddir | HkReaddirnames =>
                     match get_node s (fr_ref f) with Some nd => map snd (nkids nd) | None => [] end
+                  | HkSeek => if res_is_err r then [fr_ref f] else []    (* SeekEnd to a negative position: Name() *)
                   | _ => []
                   end in
       CcCont s1 (fr_set_res f r) (CcRel LkF :: cc_touches kids)
@@ -752,10 +769,10 @@ Definition cc_acc (a : cc_aid) : list cc_access :=
   | AHPre k =>
       match k with
       | HkRead | HkClose | HkStat | HkName | HkSync => []
-      | HkReadAt | HkWrite | HkWriteAt | HkSeek | HkTruncate => [rd FName]     (* error paths build a PathError *)
+      | HkReadAt | HkWrite | HkWriteAt | HkSeek | HkTruncate => [rdo FName]    (* error paths: fileData.Name() *)
       | HkReaddir | HkReaddirnames =>
-          (* `dir` is read unlocked; `name` only on the "not a dir" error path, i.e. on a FILE handle *)
-          [rd FDirFlag; mkAcc FName false false false false false]
+          (* f.Info().IsDir(); fileData.Name() only on the "not a dir" error path, i.e. on a FILE handle *)
+          [rdo FDirFlag; mkAcc FName false true false false false]
       end
   | AHBody k =>
       match k with
@@ -772,6 +789,14 @@ Definition cc_acc (a : cc_aid) : list cc_access :=
   | AXList => [rd FMap; rdo FName; rdo FDirFlag; rdo FData]
   end.
 
+(* the annotations before commit cbef301: the same reads WITHOUT the file mutex (kept for the record) *)
+Definition cc_acc_before_cbef301 (a : cc_aid) : list cc_access :=
+  match a with
+  | AHPre (HkReadAt | HkWrite | HkWriteAt | HkSeek | HkTruncate) => [rd FName]
+  | AHPre (HkReaddir | HkReaddirnames) => [rd FDirFlag; mkAcc FName false false false false false]
+  | _ => cc_acc a
+  end.
+
 Definition cc_all_aids : list cc_aid :=
   let hks := [HkRead; HkReadAt; HkWrite; HkWriteAt; HkSeek; HkTruncate; HkClose; HkStat; HkName; HkSync;
               HkReaddir; HkReaddirnames] in
@@ -779,7 +804,7 @@ Definition cc_all_aids : list cc_aid :=
    AStatRead; AChmodT; AChmod; AChtT; ACht; AOfLookup; AOfCreateT; AOfCreate; AOfSeekEnd;
    AOfTrunc; ARemoveT; ARemove; ARenameT; ARename; ARemoveAllT; ARemoveAll;
    ARaUnregT; ARaUnreg; ARaScan; ARaDelete; ARaNext]
-  ++ map AHPre hks ++ map AHBody hks.
+  ++ map AHPre hks ++ map AHBody hks ++ [AXList].
 
 Definition cc_mu_of (a : cc_aid) : cc_hmu := fst (fst (cc_ctx a)).
 
@@ -848,7 +873,7 @@ Definition cc_locktab : list (string * string) := [
   ("MemMapFs.Chown", "mu.RLock mu.RUnlock if{ ret } call:SetUID call:SetGID ret");
   ("MemMapFs.Chtimes", "mu.Lock defer:mu.Unlock if{ ret } call:SetModTime ret");
   ("MemMapFs.Create", "mu.Lock call:IsDir if{ call:Truncate } else{ call:registerWithParent } mu.Unlock ret");
-  ("MemMapFs.List", "for{ call:Name call:Size }");
+  ("MemMapFs.List", "mu.RLock defer:mu.RUnlock for{ call:Name call:Size }");
   ("MemMapFs.LstatIfPossible", "call:Stat ret");
   ("MemMapFs.Mkdir", "mu.RLock mu.RUnlock if{ ret } mu.Lock if{ mu.Unlock ret } call:SetMode call:registerWithParent mu.Unlock ret");
   ("MemMapFs.MkdirAll", "call:Mkdir if{ if{ ret } ret } ret");
@@ -864,23 +889,23 @@ Definition cc_locktab : list (string * string) := [
   ("MemMapFs.open", "mu.RLock mu.RUnlock if{ ret } ret");
   ("MemMapFs.openOrCreate", "mu.Lock defer:mu.Unlock if{ if{ ret } ret } call:SetMode call:registerWithParent ret");
   ("MemMapFs.openWrite", "call:open if{ ret } ret");
-  ("MemMapFs.registerWithParent", "if{ ret } call:findParent if{ call:Name call:lockfreeMkdir if{ ret } if{ ret } } parent.Lock parent.Unlock");
+  ("MemMapFs.registerWithParent", "if{ ret } call:findParent if{ call:Name call:lockfreeMkdir if{ ret } if{ ret } } parent.Lock defer:parent.Unlock");
   ("MemMapFs.renameDescendants", "call:findDescendants for{ call:Name call:Name call:unRegisterWithParent if{ ret } call:Name call:ChangeFileName call:registerWithParent } ret");
   ("MemMapFs.setFileMode", "mu.Lock defer:mu.Unlock if{ ret } call:SetMode ret");
-  ("MemMapFs.unRegisterWithParent", "if{ ret } call:findParent if{ call:Name panic } parent.Lock parent.Unlock ret");
+  ("MemMapFs.unRegisterWithParent", "if{ ret } call:findParent if{ call:Name panic } parent.Lock defer:parent.Unlock ret");
   ("mem.ChangeFileName", "f.Lock f.Unlock");
   ("mem.File.Close", "f.fileData.Lock if{ f.fileData.Unlock ret } f.fileData.Unlock ret");
   ("mem.File.Name", "call:Name ret");
   ("mem.File.Open", "f.fileData.Lock f.fileData.Unlock ret");
   ("mem.File.Read", "f.fileData.Lock defer:f.fileData.Unlock if{ ret } if{ ret } if{ ret } ret");
-  ("mem.File.ReadAt", "if{ ret } call:Read ret");
+  ("mem.File.ReadAt", "if{ call:Name ret } call:Read ret");
   ("mem.File.ReadDir", "call:Readdir if{ ret } ret");
-  ("mem.File.Readdir", "if{ ret } f.fileData.Lock f.fileData.Unlock ret");
+  ("mem.File.Readdir", "call:IsDir if{ call:Name ret } f.fileData.Lock f.fileData.Unlock ret");
   ("mem.File.Readdirnames", "call:Readdir for{ call:Name } ret");
-  ("mem.File.Seek", "if{ ret } switch{ case{ f.fileData.Lock f.fileData.Unlock } } if{ ret } ret");
-  ("mem.File.Truncate", "if{ ret } if{ ret } if{ ret } f.fileData.Lock defer:f.fileData.Unlock ret");
-  ("mem.File.Write", "if{ ret } if{ ret } if{ ret } f.fileData.Lock defer:f.fileData.Unlock ret");
-  ("mem.File.WriteAt", "if{ ret } call:Write ret");
+  ("mem.File.Seek", "if{ ret } switch{ case{ f.fileData.Lock f.fileData.Unlock } } if{ call:Name ret } ret");
+  ("mem.File.Truncate", "if{ ret } if{ call:Name ret } if{ ret } f.fileData.Lock defer:f.fileData.Unlock ret");
+  ("mem.File.Write", "if{ ret } if{ call:Name ret } if{ ret } f.fileData.Lock defer:f.fileData.Unlock ret");
+  ("mem.File.WriteAt", "if{ call:Name ret } call:Write ret");
   ("mem.File.WriteString", "call:Write ret");
   ("mem.FileData.Name", "d.Lock defer:d.Unlock ret");
   ("mem.FileInfo.IsDir", "s.Lock defer:s.Unlock ret");
